@@ -82,7 +82,7 @@ def run_worlds(ctx, n, intermediate_private):
                      "Some ls => strs_same (filter (fun x => smem x %s) ls) %s | None => false end") % (
                     term, term, clist(chain, cnat), cstr(prefix), universe, clist(got_u, cstr))
                 exprs.append(e)
-                meta.append(inp)
+                meta.append(dict(inp, model_expression=e))
         finally:
             shutil.rmtree(root, ignore_errors=True)
     bad = coq.bools(exprs, shard=60)
@@ -97,8 +97,9 @@ CATALOGUE_FILES = {
     "geo_base.f90": """module geo_base
   implicit none
   private
-  public :: shape_t, area_of, pub_count
+  public :: shape_t, area_of, pub_count, Mixed_Name
   integer :: pub_count
+  integer :: mixed_name
   integer :: hidden_count
   type :: shape_t
     integer :: id
@@ -137,6 +138,47 @@ contains
   end subroutine poly_reset
 end module geo_poly
 """,
+    "geo_rect.f90": """module geo_rect
+  use geo_poly
+  implicit none
+  type, extends(poly_t) :: quad_t
+    real :: diag
+  contains
+    procedure :: stretch => quad_stretch
+  end type quad_t
+  type, extends(quad_t) :: rect_t
+    real :: width
+  end type rect_t
+contains
+  subroutine quad_stretch(self)
+    class(quad_t), intent(inout) :: self
+  end subroutine quad_stretch
+  subroutine use_rect()
+    type(rect_t) :: rc
+    rc%
+    call rc%s
+    rc%a
+  end subroutine use_rect
+end module geo_rect
+""",
+    "geo_alias.f90": """program geo_alias
+  use geo_base, only: ra => pub_count
+  use geo_base, only: rb => area_of
+  implicit none
+  integer :: qv
+  qv = r
+  qv = mi
+  qv = sh
+end program geo_alias
+""",
+    "geo_alias2.f90": """subroutine alias_two()
+  use geo_base, lc => pub_count
+  implicit none
+  integer :: wv
+  wv = l
+  wv = mi
+end subroutine alias_two
+""",
     "geo_main.f90": """program geo_main
   use geo_poly, only: poly_t, poly_reset
   use geo_base, only: s
@@ -163,6 +205,15 @@ CATALOGUE_CASES = [
     ("USE: modules only", "geo_main.f90", 4, 9, None, {"geo_base", "geo_poly"}, {"plain_var", "pg", "poly_t", "poly_reset", "shape_t"}),
     # an object of derived type may start a call statement (call pg%proc()), so it is not counted as a violation
     ("CALL: callable entities only", "geo_main.f90", 10, 8, None, {"poly_reset"}, {"plain_var", "poly_t", "pub_count"}),
+    ("member four levels deep: members from every ancestor", "geo_rect.f90", 17, 7, None,
+     {"id", "area", "describe", "nsides", "perimeter", "diag", "stretch", "width"}, {"rc", "use_rect"}),
+    ("CALL on a four-level object with prefix", "geo_rect.f90", 18, 13, None, {"stretch"}, {"width", "diag", "id"}),
+    ("member with prefix from the root type", "geo_rect.f90", 19, 8, None, {"area"}, {"width", "id"}),
+    ("two USE ONLY statements with renames in one scope", "geo_alias.f90", 5, 8, None, {"ra", "rb"}, {"pub_count", "area_of"}),
+    ("ONLY lists hide the rest of the module", "geo_alias.f90", 6, 9, None, set(), {"mixed_name"}),
+    ("rename without ONLY", "geo_alias2.f90", 4, 8, None, {"lc"}, set()),
+    ("PUBLIC list written in another case", "geo_alias2.f90", 5, 9, None, {"mixed_name"}, set()),
+    ("derived type in an executable statement", "geo_alias.f90", 7, 9, None, {"shape_t"}, set()),
     ("CALL on an object: bound procedures", "geo_main.f90", 11, 10, None, {"describe", "perimeter"}, {"plain_var", "poly_reset"}),
 ]
 
@@ -183,7 +234,7 @@ def check_catalogue(ctx):
             missing = sorted(present - got)
             extra = sorted(absent & got)
             if labs is None or missing or extra:
-                ctx.report("C12:context-" + what.replace(":", "").replace(" ", "-")[:40], "%s: misses %s, offers %s" % (what, missing, extra),
+                ctx.report("C12:derived-types-not-offered" if what.startswith("derived type") else "C12:context-" + what.replace(":", "").replace(" ", "-")[:40], "%s: misses %s, offers %s" % (what, missing, extra),
                            {"kind": "counterexample", "input": {"files": CATALOGUE_FILES, "file": fn, "line": line, "character": ch}, "implementation": sorted(got)[:60],
                             "oracle": {"present": sorted(present), "absent": sorted(absent)}})
     finally:
